@@ -6,7 +6,6 @@
    (parse_request pkg = Some r). *)
 From Coq Require Import List NArith ZArith Permutation.
 From TarsV Require Import Gen.Consts Base.Hex Codec.Prim Codec.GenCodec Frame.Framing Frame.FramingProofs Rpc.Invoke Rpc.InvokeProofs.
-From TarsV Require Import Xlate.GoSem Gen.Translated Xlate.InvokeEquiv.
 Import ListNotations.
 Open Scope N_scope.
 
@@ -191,6 +190,7 @@ Theorem C10_tcp_segmentation : forall dispatch max cfg pkgs chunks queued,
   tcp_session dispatch max cfg chunks queued = session dispatch cfg (combine pkgs queued).
 Proof. exact InvokeProofs.tcp_segmentation. Qed.
 
+From TarsV Require Import Xlate.GoSem Gen.Translated Xlate.InvokeEquiv.
 (* ---- the CURRENT source of Protocol.Invoke / InvokeTimeout builds the model's replies ----
    Gen/Translated.v is regenerated from tars/tarsprotocol.go on every run: every assignment to the response packet outside
    the generated dispatcher (zero value, echo of version / request id / packet type, the queue-timeout answer, return code
